@@ -10,7 +10,8 @@ EXPLANATION = ("Real tcp Server/ServerTls and Client/ClientTls over FakeNet, who
                "(socket()) or accepted (accept()) until it is closed. Bounded event histories chosen by the solver and enumerated to "
                "exhaustion: server - a client connects from address 1 | address 2 | address 1 AGAIN (replacement), service(), the peer of a "
                "connection closes, TLS handshakes completing at once / after a wait / never (pending) / failing, removeIx; always ended by "
-               "close(). Client - reopen(), service() with connect results (connected, in progress, refused) and TLS handshake progress, "
+               "close(); before the successful open, 0..2 open attempts on which bind() or listen() fails after the socket was created "
+               "(then close or retry). Client - reopen(), service() with connect results (connected, in progress, refused) and TLS handshake progress, "
                "close(). Oracle: after Server.close() no descriptor of the endpoint is open (listen socket, accepted connections incl. "
                "those still handshaking and those replaced by a newer connection from the same address); after Client.reopen() at most "
                "one descriptor of the client is open, after close() none.")
@@ -25,7 +26,7 @@ OUTSIDE = ['histories longer than the bound', 'garbage collection closing a forg
            'faults raised by close() itself (shutdown() on a connection the kernel already dropped does raise ENOTCONN in the stub)']
 STUBS = ['FakeNet descriptor registry; FakeCtx handshake scripts']
 ASSUMPTIONS = ['a connection sitting in the listen backlog, never accepted, is not a descriptor opened by the endpoint']
-REQUIRED_TAGS = ['replaced-connection', 'handshake-pending-at-close', 'handshake-failed', 'peer-closed', 'two-connections', 'client-reopen-while-connecting', 'client-refused-then-reopen', 'peer-reset', 'client-reconnect-timer-expired']
+REQUIRED_TAGS = ['open-fails-after-socket-created', 'replaced-connection', 'handshake-pending-at-close', 'handshake-failed', 'peer-closed', 'two-connections', 'client-reopen-while-connecting', 'client-refused-then-reopen', 'peer-reset', 'client-reconnect-timer-expired']
 RULE = 'tags: replacement of a connection from the same address, TLS handshakes pending/failed at close, peer close, client reopen during connect'
 SEV = ['conn1', 'conn2', 'conn1', 'service', 'service', 'peerclose', 'reset', 'remove']
 CEV = ['reopen', 'service', 'service', 'close', 'tick']
@@ -42,6 +43,8 @@ def partitions(tier):
                 else:       # longer histories: one partition per third event as well
                     for third in sorted(set(SEV), key=SEV.index):
                         ps.append(dict(name='%s-%s-%s-%s' % (cls, first, second, third), cls=cls, first=first, second=second, third=third, events=b['events']))
+    for cls in ('Server', 'ServerTls'):
+        ps.append(dict(name='%s-failed-open' % cls, cls=cls, first='conn1', second='service', events=3, failopen=True))
     for cls in ('Client', 'ClientTls'):
         ps.append(dict(name='%s-history' % cls, cls=cls, events=b['events']))
     return ps
@@ -57,6 +60,24 @@ def harness_server(sym, part):
     with fakenet.Patch(net, serving):
         ctx = fakenet.FakeCtx(script=['ok'])
         srv = serving.ServerTls(ha=('127.0.0.1', 6101), context=ctx) if tls else serving.Server(ha=('127.0.0.1', 6101))
+        # before the successful open: 0..2 attempts on which bind() or listen() fails (address in use) after the socket was created
+        nfail = sym.cint('failed_opens', 1, 2) if part.get('failopen') else 0      # own partitions: keeps the history partitions small
+        net.bind_plan = [sym.choice('openfail%d' % j, ['bind', 'listen']) for j in range(nfail)]
+        for j in range(nfail):
+            sym.cover('open-fails-after-socket-created')
+            if srv.reopen():
+                return Failure('%s:reopen-true-although-bind-failed' % part['cls'], 'reopen() returned True on a failing bind/listen')
+            if sym.cbool('close_after_failed_open%d' % j):
+                srv.close()
+            if leaked(net) and srv.ss is None:
+                pass
+        if nfail and sym.cbool('give_up_after_failed_open'):
+            srv.close()
+            lk = leaked(net)
+            if lk:
+                return Failure('%s:close-leaves-open:listen-socket-of-failed-open' % part['cls'],
+                               lambda: 'after %d failed open attempt(s) and close(): %d descriptors still open' % (nfail, len(lk)))
+            return None
         assert srv.reopen()
         addrs = {'conn1': ('10.0.0.1', 4001), 'conn2': ('10.0.0.2', 4002)}
         seen = []
